@@ -126,6 +126,10 @@ _TYPES_DSL_NAMES = (
 )
 
 
+# The names whose calls are typed without a binding in the environment.
+_TYPES_BUILTIN_NAMES = _TYPES_DSL_NAMES + ("range", "str", "sum")
+
+
 def _types_eval(a):
     """
     Resolve a type annotation to a type without evaluating it (the audited
@@ -291,6 +295,11 @@ def _types_function_env(a, env):
             continue  # Another scope.
         if isinstance(a_, ast.Name) and isinstance(a_.ctx, ast.Store):
             env_.pop(a_.id, None)
+            if a_.id in _TYPES_BUILTIN_NAMES:
+                # Neither is the built-in function or constructor of that name.
+                env_[a_.id] = TypeError(
+                    "name '" + a_.id + "' is a local variable that is not assigned yet"
+                )
         nodes.extend(ast.iter_child_nodes(a_))
     return env_
 
@@ -339,6 +348,14 @@ def types(a, env=None, func=False):
             rules_no_restriction(a, recursive=True)
             # The import binds the names of the library again: a helper or variable of
             # the program that had taken one of them no longer shadows it.
+            if any(name in env for name in _TYPES_DSL_NAMES):
+                # The functions defined so far were typed with the program's binding of
+                # such a name and find the library's when they are called.
+                for name, t_f in list(env.items()):
+                    if getattr(t_f, "__name__", None) == "Callable":
+                        env[name] = TypeError(
+                            "function was defined before the library was imported again"
+                        )
             for name in _TYPES_DSL_NAMES:
                 env.pop(name, None)
         return env
